@@ -85,6 +85,7 @@ class Gen:
             self.fault_rate = 0.0  # fault-free configuration of a fault profile
         self.perturb_rate = rng.choice([0.0, 0.1, 0.2, 0.3])
         self.contraction = rng.random() < 0.7
+        self.debuglog = False  # drawn at the END of __init__ (keeps earlier seeds' programs unchanged)
         self.entry_bias = rng.choice(["any", "any", "state", "env", "ce"])
         self.nonunitary = self.prof.get("nonunitary", 0.12)
         self.sid = 0
@@ -100,6 +101,8 @@ class Gen:
         self.client_ces = {}
         self.last_kind = None
         self._setup()
+        # the process-wide logging level is an environment dimension: root logger at DEBUG in a fifth of the runs
+        self.debuglog = random.Random(seams.h64(seed, "debuglog", profile_name)).random() < 0.2
 
     # ---------------------------------------------------------------- setup
     def _emit(self, r):
@@ -151,6 +154,8 @@ class Gen:
         return {"do": "mk_ce", "name": name, "client": client, "of": list(of)}
 
     def _new_op(self, spec):
+        if spec.get("t") in ("P.RX", "P.RY", "P.RZ", "P.U3", "F.PhaseShift", "F.Displace", "F.Squeeze", "X.BS") and "ptype" not in spec and self.rng.random() < 0.12:
+            spec = dict(spec, ptype="np0d")  # parameters as 0-d numpy arrays
         for k, v in self.ops.items():
             if v == spec and k not in self.retired:
                 return k
@@ -170,8 +175,8 @@ class Gen:
                 scen = rng.choice(["bs2", "mz", "mz"])
             if self.prof.get("fock_bias") and not self.prof.get("optics") and c == 0 and rng.random() < 0.3:
                 scen = "cancel"
-            if self.prof.get("equal_values") and c == 0 and rng.random() < 0.25:
-                scen = "equalmeasure"
+            if self.prof.get("equal_values") and c == 0 and rng.random() < 0.35:
+                scen = rng.choice(["equalmeasure", "equalmeasure", "twinprep"])
             if (self.prof.get("reuse") or self.prof.get("fock_bias")) and not self.prof.get("no_estimator") and c == 0 and rng.random() < 0.08:
                 scen = "rephase"
             if c == 0 and self.prof.get("scen_bias") and rng.random() < self.prof["scen_bias"][1]:
@@ -413,6 +418,27 @@ class Gen:
                 q.append({"do": "env.expand", "env": a["name"], "client": c})
             tgt = rng.choice([af, ap])
             q.append({"do": "measure", "entry": rng.choice(["env", "state"]), "env": a["name"], "on": [tgt], "sep": True, "destr": rng.random() < 0.5, "style": rng.choice(["kw", "min"]), "client": c})
+        elif scen == "twinprep":
+            # two photons prepared IDENTICALLY (same labels, the same entangling step inside each envelope):
+            # their reduced states are bitwise equal, which no shortcut may take for "nothing to do"
+            nlab = rng.choice([0, 1, 1, 2])
+            a, b = self._new_env(c, fock=nlab, pol="H"), self._new_env(c, fock=nlab, pol="H")
+            for e in (a, b):
+                e["dims"] = nlab + 2
+                e.pop("explicit", None)
+                e.pop("subclass", None)
+            ce = self._new_ce(c, [a["name"], b["name"]])
+            q += [a, b, ce]
+            fam = {"family": "unitary", "seed": rng.randint(1, 40)}
+            order = rng.choice([[".f", ".p"], [".p", ".f"]])
+            how = rng.choice(["kraus", "local"])
+            for e in (a, b):
+                if how == "kraus":
+                    q.append({"do": "kraus", "entry": "env", "env": e["name"], "ch": dict(fam), "on": [e["name"] + order[0], e["name"] + order[1]], "client": c})
+                else:
+                    q.append(op({"t": "P.RY", "theta": th}, "state", [e["name"] + ".p"]))
+            g = rng.choice(["X.SWAP", "X.SWAP", "X.CX", "X.CZ"])
+            q.append(op({"t": g}, "ce", [a["name"] + ".p", b["name"] + ".p"], ce=ce["name"]))
         elif scen == "weaknoise":
             # weak noise on one photon of an entangled pure state: purity deficits around the
             # library's "is it pure" tolerances
@@ -1251,4 +1277,4 @@ class Gen:
         return None
 
 
-SCENARIOS = ["bell", "ghz", "bs2", "mz", "envcomb", "two_ps", "merged", "mixed_custom", "cancel", "weaknoise", "recombine", "equalmeasure", "lopsided", "paulinoise", "envsep"]
+SCENARIOS = ["bell", "ghz", "bs2", "mz", "envcomb", "two_ps", "merged", "mixed_custom", "cancel", "weaknoise", "recombine", "equalmeasure", "lopsided", "paulinoise", "envsep", "twinprep"]
